@@ -2179,4 +2179,190 @@ CASES = {
         ('                    if sq_dist <= sq_radius:\n',
          '                    if <int?>sq_dist <= sq_radius:\n'),
     ]),
+    'Em15': ('C20', 'application/application.py', [
+        ('            if timeout is not None and time.time() - self._start_time > timeout:\n',
+         '            if timeout is not None and time.time() - self._start_time > timeout > 0:\n'),
+    ]),
+    'Eal-11c': ('C20', 'application/sra/app.py', [
+        ('        self._fastq_files = None\n',
+         '        self._fastq_files = None\n        self._tmp = self._file_names\n        self._tmp[:] = []\n'),
+    ]),
+    'Eex1-13': ('C11', 'sequence/align/cigar.py', [
+        ('        seg_codes = symbol_codes[segment_index, :]\n',
+         '        seg_codes = symbol_codes[segment_index, :]\n        from numpy import zeros_like as seg_codes\n'),
+    ]),
+    'Eex2-13': ('C11', 'sequence/align/cigar.py', [
+        ('import enum\n',
+         'import enum\nfrom enum import auto\n'),
+        ('    HARD_CLIP = 5\n',
+         '    CLIP = auto()\n    HARD_CLIP = 5\n'),
+        ('        elif op == CigarOp.SOFT_CLIP:\n',
+         '        elif op == CigarOp.SOFT_CLIP or op == CigarOp.CLIP:\n'),
+    ]),
+    'Eex2-13c': ('C13', 'sequence/annotation.py', [
+        ('        FORWARD = auto()\n        REVERSE = auto()\n',
+         '        FORWARD = auto()\n        REVERSE = 1\n'),
+    ]),
+    'Eex2-14': ('C13', 'sequence/annotation.py', [
+        ('        FORWARD = auto()\n        REVERSE = auto()\n',
+         '        FORWARD = auto()\n        REVERSE = FORWARD\n'),
+    ]),
+    'Elq-5': ('C06', 'structure/io/pdbx/cif.py', [
+        ('            columns = {\n                key: CIFColumn(col) if not isinstance(col, CIFColumn) else col\n                for key, col in columns.items()\n            }\n\n        self._row_count = None\n        self._columns = columns\n',
+         '            pass\n\n        self._row_count = None\n        self._columns = columns\n        for key, col in list(columns.items()):\n            self[key] = col\n'),
+    ]),
+    'Elq-5b': ('C06', 'structure/io/pdbx/cif.py', [
+        ('            columns = {\n                key: CIFColumn(col) if not isinstance(col, CIFColumn) else col\n                for key, col in columns.items()\n            }\n\n        self._row_count = None\n        self._columns = columns\n',
+         '            pass\n\n        self._row_count = None\n        self._columns = columns\n        for key, col in list(self._columns.items()):\n            self[key] = col\n'),
+    ]),
+    'Elq-12': ('C10', 'sequence/align/selector.pyx', [
+        ('        super().__init__(alphabet, k, s, permutation, offset)\n',
+         '        offset = (0,)\n        super().__init__(alphabet, k, s, permutation, offset)\n'),
+    ]),
+    'Elq-12b': ('C10', 'sequence/align/selector.pyx', [
+        ('        super().__init__(alphabet, k, s, permutation, offset)\n',
+         '        for offset in [(0,)]:\n            pass\n        super().__init__(alphabet, k, s, permutation, offset)\n'),
+    ]),
+    'Elq-12c': ('C10', 'sequence/align/selector.pyx', [
+        ('        super().__init__(alphabet, k, s, permutation, offset)\n',
+         '        False and super().__init__(alphabet, k, s, permutation, offset)\n        try:\n            super().__init__(alphabet, k, s, permutation)\n        except TypeError:\n            raise\n'),
+    ]),
+    'Elq-12d': ('C10', 'sequence/align/selector.pyx', [
+        ('    def __init__(self, alphabet, k, s, permutation=None, offset=(0,)):\n        super().__init__',
+         '    def __init__(self, alphabet, k, s, permutation=None, offsets=(0,)):\n        super().__init__'),
+        ('        super().__init__(alphabet, k, s, permutation, offset)\n',
+         '        super().__init__(alphabet, k, s, permutation)\n'),
+    ]),
+    'Elq-12e': ('C10', 'sequence/align/selector.pyx', [
+        ('        super().__init__(alphabet, k, s, permutation, offset)\n',
+         '        super().__init__(alphabet, k, s, permutation, offset)\n        super().__init__(alphabet, k, s, permutation)\n'),
+    ]),
+    'Elq-13': ('C09', 'sequence/align/localungapped.pyx', [
+        ('    score[0] = max_score\n    return i_max_score + 1\n',
+         '    score = &total_score\n    score[0] = max_score\n    return i_max_score + 1\n'),
+    ]),
+    'Elq-14': ('C08', 'sequence/align/pairwise.pyx', [
+        ('    # Check matrix alphabets\n    if     not matrix.get_alphabet1().extends(seq1.get_alphabet()) \\\n        or not matrix.get_alphabet2().extends(seq2.get_alphabet()):\n            raise ValueError("The sequences\' alphabets do not fit the matrix")\n',
+         '    if seq1 is seq2:\n        if     not matrix.get_alphabet1().extends(seq1.get_alphabet()) \\\n            or not matrix.get_alphabet2().extends(seq2.get_alphabet()):\n                raise ValueError("The sequences\' alphabets do not fit the matrix")\n'),
+    ]),
+    'Elq-14b': ('C08', 'sequence/align/pairwise.pyx', [
+        ('    # Check matrix alphabets\n    if     not matrix.get_alphabet1().extends(seq1.get_alphabet()) \\\n        or not matrix.get_alphabet2().extends(seq2.get_alphabet()):\n            raise ValueError("The sequences\' alphabets do not fit the matrix")\n',
+         '    if False:\n        if     not matrix.get_alphabet1().extends(seq1.get_alphabet()) \\\n            or not matrix.get_alphabet2().extends(seq2.get_alphabet()):\n                raise ValueError("The sequences\' alphabets do not fit the matrix")\n'),
+    ]),
+    'Elq-14c': ('C08', 'sequence/align/pairwise.pyx', [
+        ('    # Check matrix alphabets\n    if     not matrix.get_alphabet1().extends(seq1.get_alphabet()) \\\n        or not matrix.get_alphabet2().extends(seq2.get_alphabet()):\n            raise ValueError("The sequences\' alphabets do not fit the matrix")\n',
+         '    if     not matrix.get_alphabet1().extends(seq1.get_alphabet()) \\\n        or not matrix.get_alphabet2().extends(seq2.get_alphabet()):\n            raise ValueError("The sequences\' alphabets do not fit the matrix")\n    seq1, seq2 = seq2, seq1\n'),
+    ]),
+    'Elq-14d': ('C08', 'sequence/align/pairwise.pyx', [
+        ('    # Check matrix alphabets\n    if     not matrix.get_alphabet1().extends(seq1.get_alphabet()) \\\n        or not matrix.get_alphabet2().extends(seq2.get_alphabet()):\n            raise ValueError("The sequences\' alphabets do not fit the matrix")\n',
+         ''),
+        ('    # Check if gap penalty is linear or affine\n    if type(gap_penalty) == int:\n        if gap_penalty > 0:\n            raise',
+         '    if type(gap_penalty) == int:\n        if gap_penalty > 0:\n            if     not matrix.get_alphabet1().extends(seq1.get_alphabet()) \\\n                or not matrix.get_alphabet2().extends(seq2.get_alphabet()):\n                    raise ValueError("The sequences\' alphabets do not fit the matrix")\n            raise'),
+    ]),
+    'Elq-15': ('C18', 'structure/io/mol/mol.py', [
+        ('        self.lines = self.lines[:N_HEADER] + write_structure_to_ctab(\n            atoms, default_bond_type, version\n        )\n',
+         '        lines = self.lines\n        del lines[N_HEADER:]\n        lines += write_structure_to_ctab(atoms, default_bond_type, version)\n'),
+    ]),
+    'Elq-15b': ('C18', 'structure/io/mol/mol.py', [
+        ('        self.lines = self.lines[:N_HEADER] + write_structure_to_ctab(\n            atoms, default_bond_type, version\n        )\n',
+         '        me = self\n        del me.lines[N_HEADER:]\n        me.lines += write_structure_to_ctab(atoms, default_bond_type, version)\n'),
+    ]),
+    'Elq-15c': ('C18', 'structure/io/mol/mol.py', [
+        ('        self.lines = self.lines[:N_HEADER] + write_structure_to_ctab(\n            atoms, default_bond_type, version\n        )\n',
+         '        for lines in [self.lines]:\n            del lines[N_HEADER:]\n            lines += write_structure_to_ctab(atoms, default_bond_type, version)\n'),
+    ]),
+    'Elq-15d': ('C18', 'structure/io/mol/mol.py', [
+        ('        self.lines = self.lines[:N_HEADER] + write_structure_to_ctab(\n            atoms, default_bond_type, version\n        )\n',
+         '        _ = self.lines.clear()\n        self.lines += write_structure_to_ctab(atoms, default_bond_type, version)\n'),
+    ]),
+    'Elq-15e': ('C18', 'structure/io/mol/mol.py', [
+        ('        self.lines = self.lines[:N_HEADER] + write_structure_to_ctab(\n            atoms, default_bond_type, version\n        )\n',
+         '        self.lines = self.lines[:N_HEADER]\n        self.lines = self.lines + write_structure_to_ctab(atoms, default_bond_type, version)\n'),
+    ]),
+    'Elq-15f': ('C18', 'structure/io/mol/mol.py', [
+        ('        self.lines = self.lines[:N_HEADER] + write_structure_to_ctab(\n            atoms, default_bond_type, version\n        )\n',
+         '        del self.lines[N_HEADER:]\n        self.lines += [write_structure_to_ctab][0](atoms, default_bond_type, version)\n'),
+    ]),
+    'Elq-16d': ('C07', 'structure/io/pdb/file.py', [
+        ('        n_models = len(self._model_start_i)\n        length = None\n',
+         "        if getattr(self, '_model_length', None) is not None:\n            return self._model_length\n        n_models = len(self._model_start_i)\n        length = None\n"),
+        ('        return length\n',
+         '        self._model_length = length\n        return length\n'),
+        ('        self.lines = []\n        # Prepend a single CRYST1',
+         '        if self.lines:\n            self._get_model_length()\n        self.lines = []\n        # Prepend a single CRYST1'),
+    ]),
+    'Elq-16e': ('C07', 'structure/io/pdb/file.py', [
+        ('        n_models = len(self._model_start_i)\n        length = None\n',
+         "        if getattr(self, '_model_length', None) is not None:\n            return self._model_length\n        n_models = len(self._model_start_i)\n        length = None\n"),
+        ('        return length\n',
+         '        self._model_length = length\n        return length\n'),
+        ('        self.lines = []\n        # Prepend a single CRYST1',
+         "        self._model_length = getattr(self, '_model_length', None)\n        self.lines = []\n        # Prepend a single CRYST1"),
+    ]),
+    'Elq-16f': ('C07', 'structure/io/pdb/file.py', [
+        ('        n_models = len(self._model_start_i)\n        length = None\n',
+         "        if getattr(self, '_model_length', None) is not None:\n            return self._model_length\n        n_models = len(self._model_start_i)\n        length = None\n"),
+        ('        return length\n',
+         '        self._model_length = length\n        return length\n'),
+        ('        self.lines = []\n        # Prepend a single CRYST1',
+         '        if False:\n            self._model_length = None\n        self.lines = []\n        # Prepend a single CRYST1'),
+    ]),
+    'Elq-16g': ('C07', 'structure/io/pdb/file.py', [
+        ('        n_models = len(self._model_start_i)\n        length = None\n',
+         "        if getattr(self, '_model_length', None) is not None:\n            return self._model_length\n        n_models = len(self._model_start_i)\n        length = None\n"),
+        ('        return length\n',
+         '        self._model_length = length\n        return length\n'),
+        ('        self.lines = []\n        # Prepend a single CRYST1',
+         '        self._model_length: int\n        self.lines = []\n        # Prepend a single CRYST1'),
+    ]),
+    'Elq-16h': ('C07', 'structure/io/pdb/file.py', [
+        ('        n_models = len(self._model_start_i)\n        length = None\n',
+         "        if getattr(self, '_model_length', None) is not None:\n            return self._model_length\n        n_models = len(self._model_start_i)\n        length = None\n"),
+        ('        return length\n',
+         '        self._model_length, _ = length, 0\n        return length\n'),
+    ]),
+    'Elq-22b': ('C05', 'structure/io/pdbx/compress.py', [
+        ('def _compress_column(bcif_column, float_tolerance):\n',
+         '_data_default = lambda d: _compress_data(d, 1e-6)\n\n\ndef _compress_column(bcif_column, float_tolerance):\n'),
+        ('    data = _compress_data(bcif_column.data, float_tolerance)\n',
+         '    data = _data_default(bcif_column.data)\n'),
+    ]),
+    'Elq-22c': ('C05', 'structure/io/pdbx/compress.py', [
+        ('def _compress_column(bcif_column, float_tolerance):\n',
+         'class _Default:\n    @staticmethod\n    def data(d):\n        return _compress_data(d, 1e-6)\n\n\ndef _compress_column(bcif_column, float_tolerance):\n'),
+        ('    data = _compress_data(bcif_column.data, float_tolerance)\n',
+         '    data = _Default.data(bcif_column.data)\n'),
+    ]),
+    'Elq-25': ('C01', 'structure/atoms.py', [
+        ('        clone._coord = np.copy(self._coord)\n',
+         '        clone._coord = self._coord.view()\n'),
+    ]),
+    'Elq-25b': ('C01', 'structure/atoms.py', [
+        ('        clone._coord = np.copy(self._coord)\n',
+         '        clone._coord = np.asarray(self._coord)\n'),
+    ]),
+    'Elq-25c': ('C01', 'structure/atoms.py', [
+        ('        clone._coord = np.copy(self._coord)\n',
+         '        clone._coord = self._coord.astype(np.float32, copy=False)\n'),
+    ]),
+    'Elq-25d': ('C01', 'structure/atoms.py', [
+        ('        clone._coord = np.copy(self._coord)\n',
+         '        clone._coord = np.array(self._coord, copy=False)\n'),
+    ]),
+    'Elq-25e': ('C01', 'structure/atoms.py', [
+        ('        clone._coord = np.copy(self._coord)\n',
+         '        clone._coord: np.ndarray = self._coord\n'),
+    ]),
+    'Elq-25g': ('C13', 'sequence/annotation.py', [
+        ('            self._annotation.copy(), self._sequence.copy(), self._seqstart\n',
+         '            self._annotation or None, self._sequence.copy(), self._seqstart\n'),
+    ]),
+    'Elq-25h': ('C13', 'sequence/annotation.py', [
+        ('            self._annotation.copy(), self._sequence.copy(), self._seqstart\n',
+         '            [self._annotation][0], self._sequence.copy(), self._seqstart\n'),
+    ]),
+    'Elq-25i': ('C13', 'sequence/annotation.py', [
+        ('        return copy.copy(self._qual)\n',
+         '        return self._qual or {}\n'),
+    ]),
 }
